@@ -809,7 +809,7 @@ func ruleENCSame(c *Ctx) {
 		switch q := qualNameShort(cs.Static); {
 		case q == "reflect.TypeFor":
 			typeFor = cs.Value()
-		case q == "schemaForType":
+		case isSchemaEntry(P, cs.Static):
 			sft = cs.Value()
 		case q == "(Schema).Codec":
 			codec = cs.Value()
